@@ -8,6 +8,8 @@
   `ok` answer of `checkTrees(older, newer)` implies `older ≤ newer` (what C03/C10 deliver under collision freedom).
 -/
 import ModVerif.Proofs.ClientLatestInv
+import ModVerif.Proofs.ClientAuth
+import ModVerif.Props.C01
 namespace ModVerif.Props.C13
 open ModVerif ModVerif.ClientLatest
 
@@ -184,5 +186,92 @@ example : ((run (forkParams 3 false) (fun _ => 0) (fun t => if t = 0 then some (
        (1, .ok), (1, .ok), (1, .ok), (1, .fork)]).map
       fun s => ((s.th 1).pc, s.sec, s.config, s.latest 0)) =
     some (.done .security, [(1, some (1, 4), some (0, 5))], some (0, 5), (0, 5)) := by rfl
+
+
+/-! ## The verification layer instantiated with the sequential client model (Model/Client.lean)
+
+The hypothesis `Sound.chk_ok` ("an `ok` of `checkTrees(older, newer)` implies that `older` is a prefix of `newer`") is
+discharged for the client's own `checkTrees` — C07 + C09 + C10 composed in Proofs/ClientAuth.lean — so the theorems
+above hold unconditionally (collision freedom of NodeHash) for the machine whose `parse` is `note.Open` + `ParseTree`
+under the client's verifier list and whose `chk older newer` contains `ok` only if SOME state of SOME run of the
+environment makes the model's `checkTrees older newer` return nil. -/
+
+section client
+open ModVerif.Client
+variable {σ H : Type} [DecidableEq H]
+
+/-- `a` is a prefix head of `b` with respect to the log `D`: not larger, and a head of `D` whenever `b` is one -/
+def headLe (P : Client.Params H) (D : List Bytes) (a b : Head H) : Prop :=
+  a.n ≤ b.n ∧ (IsHead P D b → IsHead P D a)
+
+open Classical in
+/-- the latest-head machine over the client model's verification layer -/
+noncomputable def clientParams (P : Client.Params H) (E : Env σ) (vs : List Note.Verifier) :
+    ClientLatest.Params Bytes (Head H) :=
+  { parse := fun m => match openTree P vs m with
+      | .ok t => some t
+      | .error _ => none
+    size := fun t => t.n
+    zero := ⟨0, P.empty⟩
+    chk := fun a b =>
+      (if a.n ≤ b.n ∧ ∃ (w : World σ H) (o1 o2 : Bytes), (checkTrees P E w a o1 b o2).1 = .ok () then [Res.ok] else []) ++
+        [Res.fork, Res.error] }
+
+/-- ★ `Sound` holds for the client model's verification layer, for every environment -/
+theorem client_sound (P : Client.Params H) (D : List Bytes) (hD : D.length < 2 ^ 62)
+    (hnode : ∀ a b c d : H, P.node a b = P.node c d → a = c ∧ b = d) (E : Env σ) (vs : List Note.Verifier) :
+    Sound (clientParams P E vs) (headLe P D) := by
+  constructor
+  · intro a; exact ⟨Nat.le_refl _, id⟩
+  · intro a b c h1 h2; exact ⟨Nat.le_trans h1.1 h2.1, fun h => h1.2 (h2.2 h)⟩
+  · intro a; exact ⟨Nat.zero_le _, fun _ => isHead_zero P D⟩
+  · intro a b h
+    simp only [clientParams, List.mem_append, List.mem_cons, List.not_mem_nil, or_false] at h
+    rcases h with h | h | h
+    · split at h
+      · rename_i hc
+        obtain ⟨hle, w, o1, o2, hok⟩ := hc
+        exact ⟨hle, fun hb => (checkTrees_spec P D hD hnode E w a o1 b o2 hb hle).2 hok⟩
+      · simp at h
+    · cases h
+    · cases h
+
+/-- ★ `latest_monotone`, unconditional for the client model: along any interleaving, the in-memory head of every client and
+the stored head only move forward in `headLe` — in particular, once a head of `D`, always a head of `D`, and sizes never
+decrease. -/
+theorem client_latest_monotone (P : Client.Params H) (D : List Bytes) (hD : D.length < 2 ^ 62)
+    (hnode : ∀ a b c d : H, P.node a b = P.node c d → a = c ∧ b = d) (E : Env σ) (vs : List Note.Verifier)
+    (cl : Nat → Nat) (presented : Nat → Option Bytes) (priv : Nat → Bool) (c0 : Option Bytes)
+    (sched : List (Nat × Res)) (s s' : St Bytes (Head H))
+    (h : Reachable (clientParams P E vs) cl presented priv c0 s)
+    (hr : run (clientParams P E vs) cl presented priv s sched = some s') :
+    (∀ c, headLe P D (s.latest c) (s'.latest c)) ∧
+      headLe P D (cfgTree (clientParams P E vs) s.config) (cfgTree (clientParams P E vs) s'.config) :=
+  latest_monotone _ _ (client_sound P D hD hnode E vs) cl presented priv c0 sched s s' h hr
+
+/-- ★ `config_cas_safe`, unconditional for the client model -/
+theorem client_config_cas_safe (P : Client.Params H) (D : List Bytes) (hD : D.length < 2 ^ 62)
+    (hnode : ∀ a b c d : H, P.node a b = P.node c d → a = c ∧ b = d) (E : Env σ) (vs : List Note.Verifier)
+    (cl : Nat → Nat) (presented : Nat → Option Bytes) (priv : Nat → Bool) (c0 : Option Bytes) (s : St Bytes (Head H))
+    (h : Reachable (clientParams P E vs) cl presented priv c0 s) :
+    HistOK c0 s.writes s.config ∧
+      ∀ w ∈ s.writes, headLe P D (cfgTree (clientParams P E vs) w.1) (cfgTree (clientParams P E vs) w.2) :=
+  config_cas_safe _ _ (client_sound P D hD hnode E vs) cl presented priv c0 s h
+
+/-- … and with signature soundness of the verifier list every head the machine ever holds in memory is a head of the one
+log `D` (the initial head is the empty tree; every later one was parsed from an accepted message). -/
+theorem client_heads_on_log (P : Client.Params H) (D : List Bytes) (E : Env σ) (vs : List Note.Verifier)
+    (hsig : SigSound P D vs) (m : Bytes) (t : Head H) (hp : (clientParams P E vs).parse m = some t) : IsHead P D t := by
+  simp only [clientParams] at hp
+  split at hp
+  · rename_i t' ho; cases hp; exact hsig m _ ho
+  · cases hp
+
+/-- non-vacuity: the parameters of `Props.C01`'s example satisfy the hypotheses -/
+example : Props.C01.exD.length < 2 ^ 62 ∧
+    (∀ a b c d : Tlog.TH, Props.C01.exParams.node a b = Props.C01.exParams.node c d → a = c ∧ b = d) :=
+  ⟨by decide, fun a b c d h => by cases h; exact ⟨rfl, rfl⟩⟩
+
+end client
 
 end ModVerif.Props.C13
